@@ -13,7 +13,8 @@ from __future__ import annotations
 from collections import deque
 
 from ..atsq import cfg_of, ename, mode_of, rec_field, state_of, step_of
-from ..core import Ctx, Evidence, Finding
+from ..model import AnalysisError
+from ..core import Ctx, Evidence, Finding, witness_of
 from ..values import E, Pdu
 
 
@@ -38,6 +39,82 @@ def _search(a, starts: list[tuple[int, frozenset]], labels: set, bits_of, need: 
                 seen.add(k)
                 q.append(k)
     return False, explored
+
+
+def lost_input(ev: Evidence, src, dst) -> list[Finding]:
+    """C02-R6: no awaited PDU is silently lost in the call that enters the step awaiting it.
+    Wait steps are derived, not named: a step is a wait step when from every busy, drained node of that step every call
+    without a packet that is not driven by a timer expiry stays in the step.  A call state_machine(K) that (a) raises nothing,
+    (b) has exactly the effect of the packet-less call from the same node, (c) enters a wait step, while (d) the same K offered
+    to the drained node just entered is consumed there (effect different from the packet-less call, not timer driven), has
+    dropped a PDU that one call later would have been accepted: in unacknowledged mode nothing re-sends it."""
+    ev.rule("C02-R6", "a PDU offered in the call that enters a wait step is handled in that call if that step handles it (no silently lost input)", 2)
+    out: list[Finding] = []
+    NONE = ("state_machine", None)
+
+    def eff(x):
+        return [y for y in x.ev if y.kind == "pdu" or (y.kind == "env" and y.name.startswith(("user.", "vfs.", "fault."))) or (y.kind == "store" and not y.name.startswith("FsmResult"))]
+
+    def sig(e):
+        return (e.dst, e.exc.cls if e.exc else None, tuple((x.kind, x.name) for x in eff(e)))
+
+    def timer_driven(e) -> bool:
+        return any(isinstance(k, tuple) and k and k[0] == "timer" and v is True for k, v in e.ch)
+
+    for which, a in (("source", src), ("dest", dst)):
+        h = a.h
+        by: dict[int, dict[tuple, list]] = {}
+        for e in a.edges:
+            by.setdefault(e.src, {}).setdefault(e.label, []).append(e)
+        stepnodes: dict[str, list[int]] = {}
+        for n in a.expanded:
+            w = h.watch(a.nodes[n])
+            if state_of(a, w) == "BUSY" and not h.wget(w, "_pdus_to_be_sent"):
+                stepnodes.setdefault(step_of(a, w), []).append(n)
+        wait: set[str] = set()
+        for S, ns in stepnodes.items():
+            ok, cnt = True, 0
+            for n in ns:
+                for x in by.get(n, {}).get(NONE, []):
+                    if x.exc is not None or timer_driven(x):
+                        continue
+                    cnt += 1
+                    if step_of(a, x.post) != S:
+                        ok = False
+            if ok and cnt:
+                wait.add(S)
+        if not wait:
+            raise AnalysisError(f"no wait step derived for the {which} handler (rule blind)")
+        found: dict[tuple, object] = {}
+        n_entering = 0
+        for n, labs in by.items():
+            nsigs = {sig(e) for e in labs.get(NONE, [])}
+            for lab, es in labs.items():
+                if lab[0] != "state_machine" or lab[1] is None:
+                    continue
+                for e in es:
+                    if e.exc is not None or e.dst is None:
+                        continue
+                    ps = step_of(a, e.post)
+                    if ps == step_of(a, e.pre) or ps not in wait or state_of(a, e.post) != "BUSY":
+                        continue
+                    n_entering += 1
+                    if sig(e) not in nsigs:
+                        continue  # the packet had an effect of its own
+                    d2 = e.dst
+                    dr = by.get(d2, {}).get(("drain",), [])
+                    if dr and dr[0].dst is not None:
+                        d2 = dr[0].dst
+                    dl = by.get(d2, {})
+                    dn = {sig(x) for x in dl.get(NONE, [])}
+                    if any(x.exc is None and not timer_driven(x) and sig(x) not in dn for x in dl.get(lab, [])):
+                        found.setdefault((lab[1], step_of(a, e.pre), ps, mode_of(a, e.pre)), e)
+        ev.inst("C02-R6", f"{which} handler | wait steps {sorted(wait)}: {n_entering} packet-carrying calls enter one, {len(found)} classes lose the packet", "ok" if not found else "violation")
+        for (k, pre, ps, mode), e in sorted(found.items(), key=lambda kv: kv[0]):
+            ev.inst("C02-R6", f"{which} handler | {k} offered in {pre} -> {ps} ({mode}) is dropped", "violation")
+            out.append(Finding("C02-R6", f"{which} handler | {k} lost in the call entering {ps} | from {pre} | mode {mode}",
+                               f"a {k} PDU passed to the state-machine call that moves from {pre} to {ps} is neither refused nor handled, although {ps} handles that PDU: the PDU is silently lost (in unacknowledged mode nothing re-sends it)", "", witness_of(a, e)))
+    return out
 
 
 def check(ctx: Ctx, ev: Evidence) -> list[Finding]:
@@ -214,6 +291,7 @@ def check(ctx: Ctx, ev: Evidence) -> list[Finding]:
             if trapped:
                 out.append(Finding("C02-R2", f"{which} handler | trap | step {step}, mode {mode}", f"from step {step} ({mode}) the handler can never return to idle, whatever PDUs arrive",
                                    "", {"state": a.describe(trapped[0])}))
+    out += lost_input(ev, src, dst)
     ev.extra["explanation"] = "product search (ATS node x collected PDU/indication bits) for 16 nominal scenarios; backward reachability of idle over all edges of both abstract transition systems"
     ev.extra["states"] = len(src.nodes) + len(dst.nodes)
     ev.extra["transitions"] = len(src.edges) + len(dst.edges)
